@@ -70,8 +70,14 @@ func TestC09Rapid(t *testing.T) {
 						num, seq := accInfo(l2, rcpt)
 						l2d := tcL2Denom(tc, coin.Denom)
 						msgs := []sdk.Msg{opchildtypes.NewMsgInitiateTokenWithdrawal(rcpt.Str, "l1-target-of-the-hook", sdk.NewCoin(l2d, math.OneInt()))}
-						if hk%2 == 0 {
-							msgs = append(msgs, banktypes.NewMsgSend(rcpt.Addr, tc.users[0].Addr, sdk.NewCoins(sdk.NewCoin(l2d, math.NewInt(1<<50)))))
+						switch hk {
+						case 0:
+							msgs = append(msgs, banktypes.NewMsgSend(rcpt.Addr, tc.users[0].Addr, sdk.NewCoins(sdk.NewCoin(l2d, math.NewInt(1<<50))))) // fails
+						case 1:
+							msgs = append(msgs, banktypes.NewMsgSend(rcpt.Addr, tc.users[0].Addr, sdk.NewCoins(sdk.NewCoin(l2d, math.OneInt())))) // withdrawal is not the last message
+						case 2:
+							// a single message that writes before it fails: native tokens cannot be withdrawn
+							msgs = []sdk.Msg{opchildtypes.NewMsgInitiateTokenWithdrawal(rcpt.Str, "l1-target-of-the-hook", coinOf("stake", 2))}
 						}
 						data = signTx(l2, msgs, []cryptotypes.PrivKey{rcpt.Priv}, []uint64{num}, []uint64{seq}, henv.L2ChainID)
 						c.Class("deposit-with-hook-withdrawal")
@@ -93,7 +99,11 @@ func TestC09Rapid(t *testing.T) {
 							break
 						}
 					}
-					msg = opchildtypes.NewMsgFinalizeTokenDeposit(exec, tc.users[0].Str, tc.users[rapid.IntRange(0, 4).Draw(rt, "to")].Str,
+					reTo := tc.users[rapid.IntRange(0, 4).Draw(rt, "to")].Str
+					if rapid.IntRange(0, 2).Draw(rt, "rebad") == 0 {
+						reTo = "bogus-recipient" // the conflicting announcement is refunded
+					}
+					msg = opchildtypes.NewMsgFinalizeTokenDeposit(exec, tc.users[0].Str, reTo,
 						coinOf(l2d, int64(rapid.IntRange(1, 1000).Draw(rt, "amt"))), nextL1, 5, "ufake", nil)
 					// keep L1's counter in step with what L2 consumed
 					tc.l1Deposit(tc.users[0], tc.users[0].Str, coinOf("uinit", 0), nil)
